@@ -557,6 +557,7 @@ func widePars() []int {
 }
 
 func progsC09(t *testing.T) {
+	progsGoexit(t, "C09")
 	progsPreCancel(t, "C09")
 	progsSlow(t, "C09")
 	typedProgs(t, "C09")
@@ -1046,6 +1047,7 @@ func callerOwnsFill(s []<-chan int, g int) {
 // ---------------------------------------------------------------- C06
 
 func progsC06(t *testing.T) {
+	progsGoexit(t, "C06")
 	progsJoinCancel(t, "C06")
 	progsPreCancel(t, "C06")
 	progsSlow(t, "C06")
@@ -1368,6 +1370,7 @@ func init() {
 				return d
 			}
 		}
+		time.Sleep(idle) // the input goes quiet (the bucket fills up) and is closed only then
 		close(in)
 		if _, ok := <-out; ok {
 			return "an element nobody sent"
